@@ -158,7 +158,10 @@ class BoundsAnalysis:
         caps = None
         for fs, cp in got.values():
             facts = set(fs) if facts is None else facts & fs
-            caps = dict(cp) if caps is None else {k: min(v, cp[k]) for k, v in caps.items() if k in cp}
+            if caps is None:
+                caps = dict(cp)
+            else:
+                caps = {k: ((v if cp[k] == v else -1) if isinstance(k, tuple) else min(v, cp[k])) for k, v in caps.items() if k in cp}
         return tuple(sorted(facts or (), key=str)), caps or {}
 
     def order_callers_first(self, funcs):
@@ -412,7 +415,11 @@ class BoundsAnalysis:
             return []
         pre, caps = self.preconditions(func)
         A = _FuncAnalysis(self, func, list(entry_facts) + list(pre))
-        A.param_caps = caps
+        A.param_caps = {k: v for k, v in caps.items() if not isinstance(k, tuple)}
+        for k, v in caps.items():
+            if isinstance(k, tuple) and k[0] == 'pair' and v != -1 and k[1] not in A.paired:
+                A.paired = dict(A.paired)
+                A.paired[k[1]] = v      # every call site offers at least `param v` bytes behind `param k[1]`
         A.queries = queries or {}
         obls = A.run()
         self.obligations += obls
@@ -529,6 +536,10 @@ class _FuncAnalysis:
         if 'v' in n.d and n.k not in ('DeclRefExpr',):
             return Lin.const(n['v'])
         k = n.k
+        if k == 'ConditionalOperator' and is_ptr_ct(n.get('ct')):
+            arm = self._nonnull_arm(n)
+            if arm is not None:
+                return self.lin(arm, st)
         if k == 'DeclRefExpr':
             r = n['ref']
             if r['kind'] == 'enum' and 'v' in n.d:
@@ -643,10 +654,25 @@ class _FuncAnalysis:
         return ('expr', render(a))
 
     # ---- region of a pointer expression ------------------------------------------------------------
+    def _nonnull_arm(self, n):
+        """`c ? p : NULL` / `c ? NULL : p` (a pointer or "none"): the pointer arm - null results are outside the domain"""
+        if n is None or n.k != 'ConditionalOperator' or len(n.ch) < 3:
+            return None
+        a, b = strip(n.ch[1]), strip(n.ch[2])
+        isnull = lambda x: x is not None and (x.get('null') or (x.get('v') == 0 and x.k != 'DeclRefExpr'))
+        if isnull(b) and not isnull(a):
+            return n.ch[1]
+        if isnull(a) and not isnull(b):
+            return n.ch[2]
+        return None
+
     def region_of(self, node, st):
         n = strip(node)
         if n is None:
             return None
+        arm = self._nonnull_arm(n)
+        if arm is not None:
+            return self.region_of(arm, st)
         k = n.k
         if k == 'DeclRefExpr':
             r = n['ref']
@@ -747,7 +773,7 @@ class _FuncAnalysis:
     def kill_var(self, st, vid):
         pr = lambda s: (s[0] == 'var' and s[1] == vid) or (s[0] == 'strlen' and s[1] == ('decl', vid))
         facts = self.project(self.saturate(st, pr), pr)
-        regions = frozenset((v, k) for v, k in st.regions if v != vid and v != ('prefix', vid))
+        regions = frozenset((v, k) for v, k in st.regions if v != vid and not (isinstance(v, tuple) and vid in v[1:]))
         return State(facts, regions)
 
     def kill_strlen_of_region(self, st, region):
@@ -940,7 +966,7 @@ class _FuncAnalysis:
                 if size is not None:
                     new_facts += [reg.cap - ren(size), ren(size) - reg.cap]
                 val = None
-            elif is_ptr and name in STRING_PTR_RESULT:
+            elif is_ptr and name in STRING_PTR_RESULT and name not in ('memchr', 'memrchr'):
                 src = r.ch[1]
                 new_region = self.region_of(src, st)
                 sl = self.lin(src, st)
@@ -989,6 +1015,16 @@ class _FuncAnalysis:
                     # the variable was set by the callee just now: capacity >= its value >= 0
                     new_facts += [reg.cap - ov, ov]
                 val = None
+            elif is_ptr and name in ('memchr', 'memrchr') and len(r.ch) > 3:
+                # a hit lies inside [src, src + n)
+                src = r.ch[1]
+                new_region = self.region_of(src, st)
+                sl, nn = self.lin(src, st), self.lin(r.ch[3], st)
+                if sl is not None:
+                    new_facts.append(X - ren(sl))
+                    if nn is not None:
+                        new_facts.append(ren(sl) + ren(nn) - X - Lin.const(1))
+                val = None
             elif is_ptr and self.top.ptr_summary(self.func, r) is not None:
                 k = self.top.ptr_summary(self.func, r)
                 src = r.ch[1 + k]
@@ -1034,7 +1070,7 @@ class _FuncAnalysis:
         for f in new_facts:
             facts = self.add(facts, f)
         facts = self.project(facts, lambda q: q == tmp)
-        regions = frozenset((v, k2) for v, k2 in st.regions if v != vid and v != ('prefix', vid))
+        regions = frozenset((v, k2) for v, k2 in st.regions if v != vid and not (isinstance(v, tuple) and vid in v[1:]))
         if new_region is not None:
             regions = regions | {(vid, new_region.key)}
         if prefix_mark and '\\' not in prefix_mark:
@@ -1071,6 +1107,19 @@ class _FuncAnalysis:
             return out
         if name in ('strlen', '__builtin_strlen'):
             return None
+        if name in ('strnlen', '__strnlen') and len(args) >= 2:
+            out = [res]
+            n = self.lin(args[1], st)
+            if n is not None:
+                out.append(n - res)
+            a = self.lin(args[0], st)
+            reg = self.region_of(args[0], st)
+            if a is not None and reg is not None and reg.end is not None:
+                out.append(reg.end - a - res)
+            s0 = strip(args[0])
+            if s0 is not None and s0.k == 'DeclRefExpr':
+                out.append(Lin.sym(('strlen', self.strkey(s0), render(s0))) - res)
+            return out
         if name in ('strspn', 'strcspn') and args:
             # the span ends at the terminator at the latest: arg + result <= end of the string arg points into
             out = [res]
@@ -1151,7 +1200,8 @@ class _FuncAnalysis:
                             f = f - delta.scale(c)
                         new.add(f)
                     facts = self.project(frozenset(new), lambda s: s[0] == 'strlen' and s[1] == ('decl', l['ref']['id']))
-                    return State(facts, st.regions)
+                    vid_ = l['ref']['id']
+                    return State(facts, frozenset((v, k2) for v, k2 in st.regions if not (isinstance(v, tuple) and vid_ in v[1:])))
                 return self.kill_var(st, l['ref']['id'])
             return self.store(st, e, l)
         if k == 'UnaryOperator' and e['op'] in ('++', '--'):
@@ -1167,11 +1217,12 @@ class _FuncAnalysis:
                         f = f - delta.scale(c)
                     new.add(f)
                 facts = self.project(frozenset(new), lambda s: s[0] == 'strlen' and s[1] == ('decl', l['ref']['id']))
-                return State(facts, st.regions)
+                vid_ = l['ref']['id']
+                return State(facts, frozenset((v, k2) for v, k2 in st.regions if not (isinstance(v, tuple) and vid_ in v[1:])))
             return self.store(st, e, l)
         if k == 'CallExpr':
             st = self.call(st, e)
-            if e.get('callee') in ('strspn', 'strcspn', 'snprintf', 'strftime', 'read', 'fread') or (
+            if e.get('callee') in ('strspn', 'strcspn', 'strnlen', 'snprintf', 'strftime', 'read', 'fread') or (
                     e.get('callee') and not is_ptr_ct(e.get('ct')) and self.prog.func(e.get('callee'), self.func.tu) is not None):
                 # the span as a value inside a larger expression (p + strcspn(p, ..), buf[strcspn(buf, ..)]): the call's
                 # own symbol carries the result facts (it is evaluated anew on every visit: forget the previous ones)
@@ -1571,12 +1622,33 @@ class _FuncAnalysis:
                     if self.entails(st, lins[i] - lins[j] - Lin.const(c)):
                         facts.add(ent(i) - ent(j) - Lin.const(c))
                         break
+        # (pointer, integer) argument pairs where the integer never exceeds what is left of the pointer's object: the
+        # helper may treat the integer parameter as the capacity behind the pointer parameter
+        for i in range(n):
+            if not isptr[i] or lins[i] is None:
+                continue
+            reg = self.region_of(args[i], st)
+            if reg is None or reg.cap is None:
+                continue
+            for j in range(n):
+                if j == i or isptr[j] or lins[j] is None or not is_int_type(t.params[j]['ct']):
+                    continue
+                if self.entails(st, reg.base + reg.cap - lins[i] - lins[j]) and self.entails(st, lins[j]):
+                    caps[('pair', i)] = j if caps.get(('pair', i), j) == j else -1
         site = (self.func.key, e.id)
         d = self.top.pre_sites.setdefault(t.key, {})
         if site in d:
             of, oc = d[site]
             facts = set(of) & facts
-            caps = {k: min(v, oc[k]) for k, v in caps.items() if k in oc}
+            merged = {}
+            for k, v in caps.items():
+                if k not in oc:
+                    continue
+                if isinstance(k, tuple):
+                    merged[k] = v if oc[k] == v else -1
+                else:
+                    merged[k] = min(v, oc[k])
+            caps = merged
         d[site] = (frozenset(facts), caps)
 
     def clobber_addr_args(self, st, e, skip=()):
@@ -1598,6 +1670,11 @@ class _FuncAnalysis:
             return st
         truth = (si == 0)
         facts = self.cond_facts(c, truth, st)
+        mark = self.char_equal_marker(c, truth)
+        if mark is not None:
+            st = State(st.facts, st.regions | {mark})
+        if facts is not None:
+            facts = list(facts) + self.partner_char_facts(c, truth, st)
         if facts is None:
             return st
         new = st.facts
@@ -1673,6 +1750,66 @@ class _FuncAnalysis:
             if a is not None and not truth:
                 return [a, -a]
         return None
+
+    # ---- two strings compared character by character (a hand-written strncmp) ------------------------
+    def _char_read(self, n):
+        n = strip(n)
+        if n is None or 'char' not in (n.get('ct') or ''):
+            return None
+        if n.k == 'ArraySubscriptExpr' or (n.k == 'UnaryOperator' and n.get('op') == '*'):
+            return n
+        return None
+
+    def char_equal_marker(self, c, truth):
+        """a[i] == b[j] established on this edge: remembered until one of the variables involved changes"""
+        neg = False
+        while c is not None and c.k == 'UnaryOperator' and c['op'] == '!':
+            neg = not neg
+            c = strip(c.ch[0])
+        if c is None or c.k != 'BinaryOperator' or c['op'] not in ('==', '!='):
+            return None
+        a, b = self._char_read(c.ch[0]), self._char_read(c.ch[1])
+        if a is None or b is None:
+            return None
+        if ((c['op'] == '==') != neg) != truth:
+            return None
+        ids = sorted({x['ref']['id'] for n in (a, b) for x in n.walk() if x.k == 'DeclRefExpr' and x['ref'].get('kind') in ('var', 'parm')})
+        return (('chareq',) + tuple(ids), (a.id, b.id))
+
+    def partner_char_facts(self, c, truth, st):
+        """x != NUL is learnt for a character x that was found equal to another one: the other one is not NUL either"""
+        neg = False
+        while c is not None and c.k == 'UnaryOperator' and c['op'] == '!':
+            neg = not neg
+            c = strip(c.ch[0])
+        if c is None:
+            return []
+        x = None
+        nonzero = None
+        if c.k == 'BinaryOperator' and c['op'] in ('==', '!='):
+            for p_, q_ in ((c.ch[0], c.ch[1]), (c.ch[1], c.ch[0])):
+                if self._char_read(p_) is not None and strip(q_).get('v') is not None:
+                    x = self._char_read(p_)
+                    v = strip(q_)['v']
+                    eq = ((c['op'] == '==') != neg) == truth
+                    nonzero = (not eq) if v == 0 else (eq or None)
+        elif self._char_read(c) is not None:
+            x = self._char_read(c)
+            nonzero = (truth != neg)
+        if x is None or not nonzero:
+            return []
+        out = []
+        for v, k in st.regions:
+            if isinstance(v, tuple) and v and v[0] == 'chareq':
+                for me, other in ((k[0], k[1]), (k[1], k[0])):
+                    n_me = self.func.nodes.get(me)
+                    if n_me is not None and render(n_me) == render(x):
+                        o = self.func.nodes.get(other)
+                        if o is not None and o.k == 'ArraySubscriptExpr':
+                            out += self.char_at_fact(o, True, st)
+                        elif o is not None:
+                            out += self.char_fact(o.ch[0], True, st)
+        return out
 
     def char_at_fact(self, sub, nonzero, st):
         """base[i] != 0 with base + i inside the string  =>  base + i + 1 <= end(region)"""
